@@ -5,19 +5,25 @@ from props import dbcommon as D
 ID = 'C14'
 IMPORTS = ['Engine.Db', 'Engine.DbCursor', 'Engine.DbFacts', 'Engine.RunDb', 'Engine.DbProg', 'Engine.RunDbProg']
 THEOREMS = ['C14_cursor_visits_snapshot', 'C14_query_snapshot_at_first_next', 'C14_retract_at_most_once',
-            'C14_retract_at_most_once_from_init', 'C14_no_lost_update', 'C14_cursor_finite', 'C14_retract_goal_finite']
+            'C14_retract_at_most_once_from_init', 'C14_no_lost_update', 'C14_cursor_finite', 'C14_retract_goal_finite',
+            'C14_compiled_no_lost_update', 'C14_compiled_retract_at_most_once']
 RULE = ('(a) event histories with 1-4 simultaneously suspended cursors (queries and retracts, started through the API, '
         'compiled clauses, call/1 and goals held in variables) mostly on ONE predicate, with asserta/assertz/retractall/'
         'clear and answers of other retract cursors between any two next(); all predicates read back after every event; '
         'compared with the model DbCursor.v.  (b) whole compiled programs (snapshot clause t(X) :- pre, p(X), post; drain, '
         'rotate, copy, counter and suspended-retract loops) with a step budget; compared with the answers and final '
         'contents that the logical update view prescribes.  Non-trivial: an update of the enumerated predicate happens '
-        'while a cursor on it is suspended (a); the loop body runs at least once (b).  Distinct by hash of the case.')
+        'while a cursor on it is suspended (a); the loop body runs at least once (b).  (c) kind dbprog: generated programs '
+        '(see C07) with up to 3 nested enumerating goals (p(X), retract(p(X)), helper calls) and updates of the same '
+        'predicate in the rest of the body, mostly failure-driven; compiled by the real compiler; compared with the model '
+        'Engine/DbProg.v (answers, final facts, number of facts stored).  Non-trivial (c): an enumerating goal is followed in '
+        'the same body by an update of its predicate.  Distinct by hash of the case.')
 TRUSTED_BASE = [
     'Coq 8.16.1 kernel (coqc); vm_compute for the in-Coq evaluation of the model on every case',
     'no axioms: all C14 theorems are closed under the global context',
     'hand-written model Engine/DbCursor.v (cursor = generator holding the list object it read at its first next(); retract '
     'tests identity in the current list and republishes the current list) tied to /repo by this differential run',
+    'hand-written model Engine/DbProg.v (compiled clause bodies with database builtins, depth first, database threaded through the search)',
     'harness: generators, driver of the implementation (harness/props/dbcommon.py, c14.py), expected values of the program templates',
     'modelled, not verified: CPython generator protocol; the compiler (programs are checked with an intrinsic oracle, not a model of the compiler)',
 ]
